@@ -26,6 +26,9 @@ TRUSTED = [
     "the first character group (property of the generator polynomial, stated in BIP380)",
     "kani::assume only restricts symbolic inputs to the stated domain (charset characters, invariant states)",
 ]
+# one SAT call for all assertions instead of one reachability query per assertion (x2-x200 faster; the driver only
+# consumes kani::cover! results, not assertion reachability)
+KANI_ARGS = ["--no-assertion-reach-checks"]
 DROPPED = [
     "checksum::Formatter (fmt::Write wrapper): core::fmt machinery; it feeds the same Engine::input piecewise",
     "Display/FromStr round trips of descriptors (text half of C10): not decided by this unit",
@@ -37,7 +40,9 @@ HARNESSES = [
     dict(name="charset_bytes_complete", fn="CHAR_MAP index domain", props=("C10", "C11"), kind="complete",
          tags=["C10:charset.table_domain_is_input_charset", "C10:charset.char_map_is_input_charset_find",
                "C10:charset.char_map_in_range"]),
-    dict(name="engine_input_one_char", fn="Engine::input", props=("C10", "C11"), kind="complete",
+    dict(name="charset_ref_table", fn="harness oracle (tabulated INPUT_CHARSET.find)", props=("C10",), kind="complete",
+         tags=["C10:charset.tabulated_oracle_is_str_find"]),
+    dict(name="engine_input_one_ascii", fn="Engine::input", props=("C10", "C11"), kind="bounded", bound="all 128 one-byte strings",
          tags=["C10:engine_input.rejects_exactly_non_charset", "C10:engine_input.error_names_char",
                "C10:engine_input.state_is_bip380"]),
     dict(name="engine_new", fn="Engine::new", props=("C10", "C11"), kind="complete",
